@@ -46,6 +46,7 @@ func checkC05(c *core.Ctx, r *core.Report) {
 		"(7) SIBLING — the parser that ranks a string as numeric in getRank is the parser the comparison converts it with; " +
 		"(8) every compareValues call sits inside a whole loop over the sort elements (no ordering decision on one key alone); " +
 		"(9) BOUND — a sort's unsigned row limit is clamped before it is converted to a signed count and handed on (no limit = maximum unsigned value); " +
+		"(10) BOUND — every IQR that the sort command keeps as its result so far is cut to the command's limit (DiscardAfter(Limit) on it before the store or before the function returns): IQR.Sort's limit is only a top-N selection hint; " +
 		"(6) the merger that joins the sort-index and the plain sub-searcher of a pushed-down sort is configured from a private copy of the sort expression whose row limit is the maximum (the plain stream is not in sort-key order, so the merger must not truncate); " +
 		"(2) SIBLING — sortProcessor.less and lessDirectRead decide through the same compareValues; " +
 		"(4) the sort-index search's decision to stop at the limit is control-dependent on the number of sort keys (the index orders by the first key only); " +
@@ -370,6 +371,7 @@ func checkC05(c *core.Ctx, r *core.Report) {
 
 	// ---------------------------------------------------------------- (5) admission of segments to the time-ordered scheduler
 	checkSchedulerAdmission(c, r)
+	checkSortLimitCut(c, r)
 }
 
 // funcValues resolves a function-typed value to the functions it can denote
